@@ -347,7 +347,7 @@ def _tomtom(Q, T, Q_lens, T_lens, Q_norm, T_norm, rr_inv, rr_counts, n_nearest,
 	n_len = Q_max*n_score_bins + Q_max*n_cache
 	
 	_gamma = numpy.empty((n, nt, Q_max), dtype='float64')
-	_gamma_int = numpy.empty((n, nt, Q_max), dtype='int8')
+	_gamma_int = numpy.empty((n, nt, Q_max), dtype='int16')
 	_f = numpy.empty((n, Q_max, n_score_bins+1), dtype='float64')
 
 	_A = numpy.empty((n, Q_max, Q_max, n_len), dtype='float64')
